@@ -4,6 +4,8 @@ from ..lib.core import AnalysisBroken
 from ..rules import lifetime, shape2, callgraph
 from .. import witness
 
+from ..rules import round5
+
 
 def run(tier, runner):
     pts = matrix.vec_points(tier) + matrix.memalg_points(tier) + matrix.swap2_points(tier)
@@ -41,9 +43,11 @@ def run(tier, runner):
         for V in ('amc::vector<%s >' % e, 'amc::SmallVector<%s, 4>' % e, 'amc::FixedCapacityVector<%s, 4>' % e):
             w.add('DTOR', 'dtor|%s' % V, '!std::is_trivially_destructible<%s >::value' % V, '%s has a destructor that destroys its elements' % V)
     r_w = witness.run_witnesses(runner, w, [(17, True, False)], ['clang++'], {'DTOR': 'vectors of non trivially destructible elements define a destructor'})
+    r_sk = round5.shift_keep(vp)
+    r_sk.require(1, 'shift_right instantiations for non relocatable element types')
     return {
-        'results': [r_mem, r_re, r_pair, ob['HOLE'], ob['TEMP'], r_tail, r_ov, r_sm, r_lc] + r_w,
-        'explanation': 'Second sentence decided in full for the analysed matrix: MEMOP - in every instantiation whose element type is neither trivially '
+        'results': [r_mem, r_re, r_pair, ob['HOLE'], ob['TEMP'], r_tail, r_ov, r_sm, r_lc, r_sk] + r_w,
+        'explanation': 'SHIFT-KEEP: for non relocatable element types shift_right leaves the vacated slots alive (its consumers assign onto them).  Second sentence decided in full for the analysed matrix: MEMOP - in every instantiation whose element type is neither trivially '
                        'copyable nor declared relocatable no memcpy/memmove/realloc (also inside std algorithm bodies) has an E* argument anywhere in the '
                        'resolved call graph, while for relocatable element types such sites exist (non-vacuity); REALLOC-TR - the allocator\'s reallocate is '
                        'reachable only for relocatable element types; PAIR - the overload selected for each archetype treats destination slots the way its '
